@@ -1,7 +1,100 @@
 import ASV.Drv.J
+import ASV.Spec.Orf
 namespace ASV.Drv.C15
-open Lean ASV ASV.Drv
+open Lean ASV ASV.Drv ASV.Orf
 
-def handle (_j : Json) : R Json := throw "C15: no model yet"
+def optInt (j : Json) (k : String) : R (Option Int) :=
+  match fldD j k Json.null with
+  | .null => pure none
+  | v => do return some (← asInt v)
+
+def pairJ (p : Int × Int) : Json := jArr [toJson p.1, toJson p.2]
+def geneOfJson (j : Json) : R Gene := do return ⟨← asInt (← idx j 0), ← asInt (← idx j 1)⟩
+def pairOfJson (j : Json) : R (Int × Int) := do return (← asInt (← idx j 0), ← asInt (← idx j 1))
+
+def scan (j : Json) : R Json := do
+  let seq := (← strF j "seq").toList
+  let fwd ← boolF j "fwd"
+  let offset ← intF j "offset"
+  let minLen ← intF j "minlen"
+  let recLen ← optInt j "reclen"
+  let w := upper seq
+  let n := w.length
+  let model := scanOrfs seq fwd offset minLen recLen
+  let orfs := specOrfs w
+  let specJ := orfs.map fun (s, e) => jObj [
+    ("s", toJson s), ("e", toJson e), ("len", toJson (orfLen s e)),
+    ("loc", locToJson (specLoc fwd n offset recLen s e)),
+    ("orf", Json.str (String.ofList (orfSeq w s e)))]
+  -- hypotheses of the coordinate theorems: a real window (no longer than the ring, inside the line)
+  let scope := match recLen with
+    | none => decide (0 ≤ offset)
+    | some L => decide (0 < L) && decide ((n : Int) ≤ L)
+  return jObj [("model", jArr (model.map locToJson)),
+               ("spec", jArr specJ),
+               ("exact_len", toJson (orfs.any fun (s, e) => orfLen s e == minLen)),
+               ("scope", toJson scope)]
+
+def gaps (j : Json) : R Json := do
+  let start ← intF j "start"
+  let «end» ← intF j "end"
+  let genes ← listOf geneOfJson (← fld j "genes")
+  let minLen ← intF j "minlen"
+  let pad ← intF j "pad"
+  let impl ← listOf pairOfJson (fldD j "impl" (jArr []))
+  let model := findIntergenic start «end» genes minLen pad
+  let specOk := impl.all fun a =>
+    areaAvoids genes pad a && decide (start ≤ a.1) && decide (a.2 ≤ «end») && decide (a.2 - a.1 ≥ minLen)
+  return jObj [("model", jArr (model.map pairJ)),
+               ("spec_ok", toJson specOk),
+               ("scope", toJson (sortedByStartB genes && decide (0 ≤ pad)))]
+
+def partOfJson3 (j : Json) : R (Int × Int × List Gene) := do
+  return (← asInt (← idx j 0), ← asInt (← idx j 1), ← listOf geneOfJson (← idx j 2))
+
+def allorfs (j : Json) : R Json := do
+  let rec_ := (← strF j "rec").toList
+  let L : Int := rec_.length
+  let minLen ← intF j "minlen"
+  let pad ← intF j "pad"
+  let cross ← boolF j "cross"
+  let parts ← listOf partOfJson3 (← fld j "parts")
+  let impl ← listOf locOfJson (fldD j "impl" (jArr []))
+  let genes := parts.flatMap (·.2.2)
+  let areas : Option (List (Int × Int)) :=
+    if cross then crossOriginIntergenic parts L minLen pad
+    else match parts with
+      | [p] => some (findIntergenic p.1 p.2.1 p.2.2 minLen pad)
+      | _ => none
+  let locs := areas.bind (scanAreas rec_ minLen)
+  let inGaps := match areas with
+    | none => true
+    | some as => impl.all fun l => as.any fun a => locInArea L a l
+  let avoids := impl.all (locAvoids genes pad)
+  return jObj [("areas", match areas with | none => Json.null | some as => jArr (as.map pairJ)),
+               ("model", match locs with
+                  | none => Json.null
+                  | some ls => jArr (ls.map fun l => jObj [("loc", locToJson l), ("label", Json.str (orfLabel rec_.length l))])),
+               ("in_gaps", toJson inGaps), ("avoids", toJson avoids),
+               ("scope", toJson ((parts.all fun p => sortedByStartB p.2.2) && decide (0 ≤ pad)))]
+
+def trimToJson : Trim → Json
+  | .valueError => Json.str "value-error"
+  | .none => Json.null
+  | .found a b => jArr [toJson a, toJson b]
+
+def trim (j : Json) : R Json := do
+  let seq := (← strF j "seq").toList
+  let r := trimmedOrf seq (← intF j "lo") (← intF j "hi") (← boolF j "fwd") (← optInt j "incl")
+    (← intF j "minlen") (← optInt j "maxlen")
+  return jObj [("model", trimToJson r)]
+
+def handle (j : Json) : R Json := do
+  match (← strF j "kind") with
+  | "scan" => scan j
+  | "gaps" => gaps j
+  | "allorfs" => allorfs j
+  | "trim" => trim j
+  | k => throw s!"C15: unknown kind {k}"
 
 end ASV.Drv.C15
